@@ -456,13 +456,17 @@ def yield_rule(run, f):
         ("Return/Ok", row(("Return",), None, None, ("Ok",)), {(("complete",), "Ok")}),
         ("Return/Err", row(("Return",), None, None, ("Err",)), {(("error",), "Ok")}),
     ]
+    # a body that ended with an error inside a hooked call is in Syscall(.., Executing): leaving the call first
+    # (Syscall -> Running, then Running -> Error) uses documented edges only (fix F32)
+    also = {"Return/Err": {(("running", "error"), "Ok")}}
     for other in ("Ready", "Suspend", "Cancelled", "Complete", "Error"):
         checks.append(("Yield/" + other, row(("Yield",), other, None, None), {((), "Err")}))
     for (k, got, want) in checks:
         run.count("table_rows")
         # `?` adds error-propagation exits after a transition call: (calls, Err) rows are allowed next to the Ok row
-        got2 = {g for g in got if not (g[1] == "Err" and any((g[0], "Ok") == w_ for w_ in want))}
-        if got2 == want:
+        allowed = want | also.get(k, set())
+        got2 = {g for g in got if not (g[1] == "Err" and any(w_[1] == "Ok" and w_[0][:len(g[0])] == g[0] and g[0] for w_ in allowed))}
+        if want <= got2 <= allowed:
             run.ok(rid, "raw_resume/" + k, {"actions": sorted(map(list, want))})
         else:
             run.fail(rid, "raw_resume/" + k, b.loc(), "raw_resume row %s: code does %s, documented classification is %s" % (k, sorted(got2), sorted(want)))
